@@ -106,18 +106,17 @@ def run(ck, model_ok):
         if mi % 4 == 1 and kw.get('dn') != '':      # (an empty display name is the known finding, reported above)
             # object history: the magnet has been rendered, then keywords / extension parameters are changed in place
             try:
-                mg.x['pe'] = 'late:%d' % mi
-                if mg.kt is None:
-                    mg.kt = ['late']
+                # one kind of in-place change per case (an assignment or a change of tr / ws would be a different history)
+                if mi % 8 == 1 or mg.kt is None:
+                    mg.x['pe'] = 'late:%d' % mi
                 else:
                     mg.kt.append('late')
-                mg.tr.append('http://late.example.org/announce')
                 f2 = fields(mg)
                 s2 = str(mg)
                 g2 = fields(torf.Magnet.from_string(s2))
                 ck.count('history:edited-in-place-after-rendering')
                 if g2 != f2:
-                    ck.fail('oracle', 'stale-rendering:' + classify(f2, g2), dict(case, history='rendered, then x / kt / tr changed in place', rendered2=s2),
+                    ck.fail('oracle', 'stale-rendering:' + classify(f2, g2), dict(case, history='rendered, then x or kt changed in place', rendered2=s2),
                             repr(f2)[:300], repr(g2)[:300], 'after in-place changes the rendered URI does not carry the current fields')
             except torf.TorfError:
                 pass
